@@ -113,8 +113,9 @@ func leafDesc(v ssa.Value) string {
 func sizeLeaves(fn *ssa.Function) map[string]bool {
 	out := map[string]bool{}
 	seen := map[ssa.Value]bool{}
-	var walk func(v ssa.Value)
-	walk = func(v ssa.Value) {
+	// under: v is an operand of an addition (or the start value of an accumulator), where a constant 0 adds nothing
+	var walk func(v ssa.Value, under bool)
+	walk = func(v ssa.Value, under bool) {
 		if seen[v] {
 			return
 		}
@@ -122,18 +123,27 @@ func sizeLeaves(fn *ssa.Function) map[string]bool {
 		switch x := v.(type) {
 		case *ssa.Phi:
 			for _, e := range x.Edges {
-				walk(e)
+				if b, ok := e.(*ssa.BinOp); ok && b.Op == token.ADD && (stripConv(b.X) == ssa.Value(x) || stripConv(b.Y) == ssa.Value(x)) {
+					under = true // accumulator
+				}
+			}
+			for _, e := range x.Edges {
+				walk(e, under)
 			}
 			return
 		case *ssa.BinOp:
 			if x.Op == token.ADD {
-				walk(x.X)
-				walk(x.Y)
+				walk(x.X, true)
+				walk(x.Y, true)
 				return
 			}
 		case *ssa.Convert:
-			walk(x.X)
+			walk(x.X, under)
 			return
+		case *ssa.Const:
+			if n, ok := constInt(x); ok && n == 0 && under {
+				return
+			}
 		}
 		// a module helper that is not one of the known size functions is expanded in place
 		if call := sizeHelperCall(v); call != nil && depthGuard < 3 {
@@ -170,7 +180,7 @@ func sizeLeaves(fn *ssa.Function) map[string]bool {
 		if !ok || len(ret.Results) == 0 || b == fn.Recover {
 			continue
 		}
-		walk(ret.Results[0])
+		walk(ret.Results[0], false)
 	}
 	return out
 }
